@@ -121,6 +121,8 @@ type Run struct {
 	EditAfterBuild bool        // standardScript: edit the collection right after Build
 	kept           []keptSlice // group slices returned by godi that the harness kept untouched
 	sliceFs        []Finding   // kept slices that changed afterwards
+	sib            *sibling    // KeepSibling: the provider of the intermediate Build
+	sibFs          []Finding
 	KeepValues     bool
 	Values         map[int]*rt.Inst // instance values registered (reg index -> inst)
 }
@@ -163,7 +165,11 @@ func NewRun(s *Spec, m *Model, faults []rt.Fault, closeFaults []rt.CloseFault) *
 							_ = sc.Close()
 						}
 					}()
-					_ = p.Close()
+					if s.KeepSibling && len(faults) == 0 && len(closeFaults) == 0 {
+						r.keepSibling(p)
+					} else {
+						_ = p.Close()
+					}
 				}
 			}()
 			r.Rec.NoLog = false
@@ -270,6 +276,7 @@ func (r *Run) Build() {
 	res.Ret = r.Rec.EndOp(opIdx, 0, res.Class)
 	r.Built = r.BuildErr == nil && r.BuildPanic == nil && r.Prov != nil
 	r.Results = append(r.Results, res)
+	r.checkSibling("after the edited collection was built again")
 }
 
 // BuildCancelledAt runs BuildWithContext with a context that is cancelled from inside the
@@ -619,9 +626,16 @@ func (r *Run) markClosed(scope int) {
 
 // Finish closes the provider (if built and not yet closed) so that every history ends with it.
 func (r *Run) Finish() {
+	if r.sib != nil {
+		r.checkSibling("at the end of the run (the later provider has been used in the meantime)")
+		if len(r.Values) == 0 && len(r.Ops)%2 == 1 {
+			r.closeSibling() // before the later provider is closed
+		}
+	}
 	if r.Built && !r.Poisoned && !r.Scopes[0].Closed {
 		r.Do(Op{Kind: OpCloseProvider})
 	}
+	r.closeSibling()
 	for _, s := range r.Scopes {
 		if s != nil && s.Cancel != nil {
 			s.Cancel()
